@@ -132,6 +132,17 @@ type VerifForkView struct {
 	State   MetadataState
 	Path    string
 	NChunks int
+	Splits  bool
+	// Sentinel (metadata file) names currently in the scheduler's cache.
+	Meta, Split, Join []string
+	Chunks            []VerifChunkView
+}
+
+// VerifChunkView is a read-only view of one chunk.
+type VerifChunkView struct {
+	Index int
+	State MetadataState
+	Names []string
 }
 
 // VerifNodeView is a read-only view of a node.
@@ -167,7 +178,7 @@ func (self *Pipestance) VerifNodes() []VerifNodeView {
 			v.Prenodes = append(v.Prenodes, k)
 		}
 		for _, f := range n.forks {
-			v.Forks = append(v.Forks, VerifForkView{
+			fv := VerifForkView{
 				Index:   f.index,
 				Id:      f.id,
 				Fqname:  f.fqname,
@@ -175,7 +186,19 @@ func (self *Pipestance) VerifNodes() []VerifNodeView {
 				State:   f.getState(),
 				Path:    f.path,
 				NChunks: len(f.chunks),
-			})
+				Splits:  n.call.Kind() == syntax.KindStage && f.Split(),
+				Meta:    f.metadata.serializeState().Names,
+				Split:   f.split_metadata.serializeState().Names,
+				Join:    f.join_metadata.serializeState().Names,
+			}
+			for _, c := range f.chunks {
+				fv.Chunks = append(fv.Chunks, VerifChunkView{
+					Index: c.index,
+					State: c.getState(),
+					Names: c.metadata.serializeState().Names,
+				})
+			}
+			v.Forks = append(v.Forks, fv)
 		}
 		out = append(out, v)
 	}
